@@ -940,6 +940,35 @@ func c03Recorded(c *Ctx) {
 				return "unmerged-clone"
 			}
 		}
+		// newTree, err := helper(ctx, tree, graft, …): a single-caller helper that returns, besides nil,
+		// only a clone of its tree parameter into which its graft parameter was merged successfully
+		if ex, ok := v.(*ssa.Extract); ok && ex.Index == 0 {
+			if cl, ok := ex.Tuple.(*ssa.Call); ok && cl.Call.StaticCallee() != nil && c.Scope(fn).Contains(cl.Call.StaticCallee()) {
+				h := cl.Call.StaticCallee()
+				gi := -1
+				for i, a := range cl.Call.Args {
+					if a == graft {
+						gi = i
+					}
+				}
+				summary := false
+				if gi >= 0 && gi < len(h.Params) {
+					for ti, hp := range h.Params {
+						if ti != gi && types.Identical(hp.Type(), h.Params[gi].Type()) && helperClonesAndMerges(h, hp, h.Params[gi]) {
+							summary = true
+						}
+					}
+				}
+				if summary {
+					okS, _ := an.SuccessDominates(cl, from.Instrs[len(from.Instrs)-1])
+					nonNil := an.GuardedByNilTest(an.Edge{From: from}, func(w ssa.Value) bool { return w == v }, false)
+					if okS && nonNil {
+						return "merged"
+					}
+					return "unmerged-clone"
+				}
+			}
+		}
 		if ph, ok := v.(*ssa.Phi); ok {
 			res := ""
 			for i, e := range ph.Edges {
@@ -990,6 +1019,61 @@ func c03Recorded(c *Ctx) {
 	if nm == 0 {
 		c.R.Bad(rule, name+": no merging path", c.P.Pos(fn.Pos()), "no loop path both merges and records a version")
 	}
+}
+
+// helperClonesAndMerges: every return of h hands back nil, or the clone of `tree` after Merge(clone, graft) succeeded.
+func helperClonesAndMerges(h *ssa.Function, tree, graft *ssa.Parameter) bool {
+	var clone ssa.Value
+	var cloneCall, mergeCall ssa.CallInstruction
+	for _, call := range an.Calls(h) {
+		recv := an.Unwrap(call.Common().Args[0])
+		if ld, ok := recv.(*ssa.UnOp); ok && ld.Op == token.MUL {
+			recv = an.Unwrap(ld.X) // value receiver: (*tree).Clone
+		}
+		if an.CalleeIs(call, crdtPkg, "Tree", "Clone") && recv == ssa.Value(tree) {
+			if cv, ok := call.(ssa.Value); ok {
+				for _, r := range *cv.Referrers() {
+					if ex, ok := r.(*ssa.Extract); ok && ex.Index == 0 {
+						clone, cloneCall = ex, call
+					}
+				}
+			}
+		}
+	}
+	if clone == nil {
+		return false
+	}
+	for _, call := range an.Calls(h) {
+		if an.CalleeIs(call, crdtPkg, "Tree", "Merge") {
+			a := call.Common().Args
+			if len(a) >= 3 && a[0] == clone && an.Unwrap(a[2]) == ssa.Value(graft) {
+				mergeCall = call
+			}
+		}
+	}
+	if mergeCall == nil {
+		return false
+	}
+	for _, b := range h.Blocks {
+		ret, ok := b.Instrs[len(b.Instrs)-1].(*ssa.Return)
+		if !ok || len(ret.Results) == 0 {
+			continue
+		}
+		v := an.RetVal(ret, 0)
+		if an.IsNilConst(v) {
+			continue
+		}
+		if v != clone {
+			return false
+		}
+		if ok1, _ := an.SuccessDominates(cloneCall, ret); !ok1 {
+			return false
+		}
+		if ok2, _ := an.SuccessDominates(mergeCall, ret); !ok2 {
+			return false
+		}
+	}
+	return true
 }
 
 func lastInstrPos(b *ssa.BasicBlock) token.Pos {
